@@ -198,7 +198,7 @@ def extra_pass(tier, kf):
                      "FmtAttribute::placeholders_by_arg, contains_arg, Placeholder::parse_fmt_string, FmtAttribute, FmtArgument",
                      ["impl/src/fmt/mod.rs::FmtAttribute::placeholders_by_arg", "impl/src/fmt/mod.rs::FmtAttribute::contains_arg",
                       "impl/src/fmt/mod.rs::Placeholder::parse_fmt_string"],
-                     n_full={"quick": 3, "thorough": 5}, n_deep={"quick": 5, "thorough": 7})
+                     n_full={"quick": 3, "thorough": 4}, n_deep={"quick": 5, "thorough": 6})
 
 
 def replay_json(path):
